@@ -640,6 +640,10 @@ func (g *genv) exprD(k gkind, depth int, plain bool) *E {
 				return Prop(Var("ms"), key)
 			})
 		}
+		if !plain && g.p.Filters && g.p.OrdMap {
+			// "an ordered YAML map behaves as a map for lookup and size": the size filter too
+			opts = append(opts, func() *E { return Flt(Var("ms"), "size") })
+		}
 		if !plain && g.p.Filters {
 			opts = append(opts,
 				func() *E {
